@@ -7,7 +7,9 @@ import (
 	"io"
 	stdlog "log"
 	"math/rand"
+	"net"
 	"net/http"
+	"sync"
 	"net/http/httptest"
 	"net/url"
 	"regexp"
@@ -25,13 +27,54 @@ import (
 	experimentsv1beta1 "github.com/kubeflow/katib/pkg/apis/controller/experiments/v1beta1"
 	suggestionsv1beta1 "github.com/kubeflow/katib/pkg/apis/controller/suggestions/v1beta1"
 	trialsv1beta1 "github.com/kubeflow/katib/pkg/apis/controller/trials/v1beta1"
+	api "github.com/kubeflow/katib/pkg/apis/manager/v1beta1"
 	ui "github.com/kubeflow/katib/pkg/ui/v1beta1"
+	"google.golang.org/grpc"
 	"github.com/kubeflow/katib/pkg/util/v1beta1/katibclient"
 )
 
 type uiEnv struct {
-	trace  []string
-	script string
+	trace    []string
+	script   string
+	verified map[string]string // trial name -> namespace in which a Get of that Trial succeeded during this request
+}
+
+// an in-process DB manager: the observation-log store is keyed by trial name only (it knows nothing about namespaces)
+type uiDB struct {
+	api.UnimplementedDBManagerServer
+}
+
+var (
+	uiDBOnce sync.Once
+	uiDBAddr string
+	curUIEnv *uiEnv
+)
+
+func (d *uiDB) GetObservationLog(ctx context.Context, in *api.GetObservationLogRequest) (*api.GetObservationLogReply, error) {
+	if e := curUIEnv; e != nil {
+		ns, ok := e.verified[in.TrialName]
+		if !ok {
+			ns = "-"
+		}
+		e.trace = append(e.trace, fmt.Sprintf("db:%s:%s", hx(in.TrialName), ns))
+	}
+	return &api.GetObservationLogReply{ObservationLog: &api.ObservationLog{MetricLogs: []*api.MetricLog{
+		{TimeStamp: "2024-05-01T10:00:00Z", Metric: &api.Metric{Name: "acc", Value: "0.9"}}}}}, nil
+}
+
+func startUIDB() string {
+	uiDBOnce.Do(func() {
+		lis, err := net.Listen("tcp", "127.0.0.1:0")
+		if err != nil {
+			uiDBAddr = "127.0.0.1:1"
+			return
+		}
+		srv := grpc.NewServer()
+		api.RegisterDBManagerServer(srv, &uiDB{})
+		go func() { _ = srv.Serve(lis) }()
+		uiDBAddr = lis.Addr().String()
+	})
+	return uiDBAddr
 }
 
 func (e *uiEnv) allow(ns string) bool {
@@ -100,7 +143,8 @@ func init() {
 	runners["C20"] = func(rng *rand.Rand, tier string, k int) Case {
 		getValidator()
 		ui.DISABLE_AUTH = "false"
-		env := &uiEnv{}
+		env := &uiEnv{verified: map[string]string{}}
+		curUIEnv = env
 		objs := []client.Object{}
 		for _, ns := range []string{"a", "b", "kubeflow"} {
 			objs = append(objs, &corev1.Namespace{ObjectMeta: metav1.ObjectMeta{Name: ns}})
@@ -115,7 +159,10 @@ func init() {
 			t := &trialsv1beta1.Trial{ObjectMeta: metav1.ObjectMeta{Name: "exp-t1", Namespace: ns, Labels: map[string]string{"katib.kubeflow.org/experiment": "exp"}}}
 			t.Spec.Objective = e.Spec.Objective
 			t.Status.Conditions = []trialsv1beta1.TrialCondition{{Type: trialsv1beta1.TrialCreated, Status: corev1.ConditionTrue}}
-			objs = append(objs, e, t, &suggestionsv1beta1.Suggestion{ObjectMeta: metav1.ObjectMeta{Name: "exp", Namespace: ns}})
+			// a trial that exists in this namespace only
+			t2 := t.DeepCopy()
+			t2.Name = "only-" + ns
+			objs = append(objs, e, t, t2, &suggestionsv1beta1.Suggestion{ObjectMeta: metav1.ObjectMeta{Name: "exp", Namespace: ns}})
 		}
 		rec := func(verb string, o interface{}, ns string) {
 			if _, ok := o.(*authv1.SubjectAccessReview); ok {
@@ -137,7 +184,11 @@ func init() {
 			},
 			Get: func(ctx context.Context, cl client.WithWatch, key client.ObjectKey, obj client.Object, opts ...client.GetOption) error {
 				rec("get", obj, key.Namespace)
-				return cl.Get(ctx, key, obj, opts...)
+				err := cl.Get(ctx, key, obj, opts...)
+				if _, isTrial := obj.(*trialsv1beta1.Trial); isTrial && err == nil {
+					env.verified[key.Name] = key.Namespace
+				}
+				return err
 			},
 			List: func(ctx context.Context, cl client.WithWatch, list client.ObjectList, opts ...client.ListOption) error {
 				lo := &client.ListOptions{}
@@ -158,7 +209,7 @@ func init() {
 				return cl.Delete(ctx, obj, opts...)
 			},
 		}).Build()
-		h := ui.NewVerifKatibUIHandler(katibclient.NewWithGivenClient(c), "127.0.0.1:1")
+		h := ui.NewVerifKatibUIHandler(katibclient.NewWithGivenClient(c), startUIDB())
 		rs := routes[k%len(routes)]
 		hdr := rng.Intn(4) != 0
 		env.script = pick(rng, []string{"denyall", "allowall", "allow:a", "allow:b"})
@@ -168,6 +219,10 @@ func init() {
 		multi := false
 		if rs.query != nil {
 			v := rs.query(reqNs)
+			if v.Get("trialName") != "" {
+				// also trials that exist in one namespace only (the observation-log store is keyed by the bare name)
+				v.Set("trialName", pick(rng, []string{"exp-t1", "exp-t1", "only-a", "only-b"}))
+			}
 			if rng.Intn(3) == 0 {
 				// a repeated query parameter: the first value is the one that gets reviewed
 				other := "a"
